@@ -467,6 +467,11 @@ class Session:
                        "pipe": BrokenPipeError("pipe"), "incomplete": EOFError("incomplete")}[ev.get("exc", "reset")]
                 self.sim.read_error(cid, settle=False, exc=exc)
             if cid in self.awaiting:
+                if getattr(self, "_in_burst", False):
+                    # inside a burst the request may be answered by an earlier event of the same burst: whether the loss is
+                    # noticed at once or only after the reply is decided at this event's position in the order being tried
+                    self._lazy_pending[cid] = t
+                    return [{"t": "leave", "c": cid, "o": None, "lazy": True}]
                 self.pending_leave[cid] = t       # noticed by the handler only after its reply was written
                 return []
             return [{"t": "leave", "c": cid, "o": None}]
@@ -507,6 +512,12 @@ class Session:
             if guard > 80:
                 break
             me = queue.pop(0)
+            if me.get("lazy"):
+                conns = dict((ms or self.model_state or {"conns": []})["conns"])
+                if str(conns.get(me["c"], "")).startswith("parked"):
+                    pending[me["c"]] = self._lazy_pending.get(me["c"], "readerr")      # still waiting for its answer: noticed after it
+                    continue
+                me = {k: v for k, v in me.items() if k != "lazy"}
             if "o" in me:
                 me["o"] = self._oracle_json(me["c"])
             rep = self.drv.ask({"op": "ev", "ev": me, "full": True})
@@ -590,6 +601,8 @@ class Session:
         groups = []
         group_conn = []
         applied = []
+        self._in_burst = len(evs) > 1
+        self._lazy_pending = {}
         for ev, gap in zip(evs, gaps):
             log = {k: v for k, v in ev.items() if k not in ("raw_bytes", "action")}
             if "raw_bytes" in ev:
@@ -1128,6 +1141,8 @@ def run_sessions(drv, rng, defender_tables, on_fail, stats, n_sessions, n_events
             prof["burst_no_game"] = True
         if prof.get("attacker_max_steps"):
             cfg["coordinator"]["agents"]["Attacker"]["max_steps"] = rng.choice(prof["attacker_max_steps"])
+        if prof.get("defender_start") is not None:
+            cfg["coordinator"]["agents"]["Defender"]["start_position"]["controlled_hosts"] = list(prof["defender_start"])
         if prof.get("defender_max_steps"):
             # a step limit for the defender and a goal it does not reach by accident
             cfg["coordinator"]["agents"]["Defender"]["max_steps"] = rng.choice(prof["defender_max_steps"])
